@@ -194,6 +194,7 @@ def write_evidence(prop, spec, tier, seed, results, queries, obligations, discha
                 notes[k] = notes.get(k, 0) + v
             else:
                 notes.setdefault(k, v)
+    nknown = sum(len(v) for v in known_hits.values())
     cov = dict(
         evaluations=len(queries),
         distinct_nontrivial=len(distinct),
@@ -201,8 +202,9 @@ def write_evidence(prop, spec, tier, seed, results, queries, obligations, discha
              "code for one configuration; distinct & non-trivial = distinct (configuration, obligation) pairs that were decided "
              "(sat/unsat) in a configuration all of whose reachability witnesses were sat",
         samples=samples,
-        obligations=len(obligations),
+        obligations=len(obligations) - nknown,
         discharged=len(discharged),
+        obligations_violated_by_known_findings=nknown,
         inconclusive=len(unknown),
         witnesses=len(witnesses),
         witnesses_sat=sum(1 for w in witnesses if w["verdict"] == "sat"),
